@@ -17,6 +17,51 @@ pub struct GCase {
     /// false = buffers end at the guard page, true = buffers start at the guard page
     pub in_start_flush: bool,
     pub out_start_flush: bool,
+    /// byte-granular buffers (block, inputs, outputs) are moved off their natural alignment by this many bytes (0..16)
+    #[serde(default)]
+    pub mis: u8,
+}
+
+/// A guard-placed buffer whose data start is moved off its natural alignment by `mis` bytes: the data sit at the
+/// flush end of a region that is `mis` bytes longer; the `mis` slack bytes on the open side are checked like a canary.
+struct MBuf {
+    g: GuardBuf,
+    off: usize,
+    len: usize,
+}
+
+const SLACK: u8 = 0xA5;
+
+impl MBuf {
+    fn new(len: usize, place: Place, mis: usize) -> MBuf {
+        let start = matches!(place, Place::StartFlush);
+        let mut g = GuardBuf::new(len + mis, place);
+        g.as_mut_slice().fill(SLACK);
+        // the `mis` slack bytes lie between the data and the guard page (page boundaries are aligned, so data that
+        // touch the guard page always have the same alignment): end-flush region = data then slack, start-flush
+        // region = slack then data; with mis = 0 the data are flush against the guard page
+        let off = if start { mis } else { 0 };
+        MBuf { g, off, len }
+    }
+    fn with_bytes(data: &[u8], place: Place, mis: usize) -> MBuf {
+        let mut m = MBuf::new(data.len(), place, mis);
+        m.as_mut_slice().copy_from_slice(data);
+        m
+    }
+    fn ptr(&self) -> *mut u8 {
+        unsafe { self.g.ptr().add(self.off) }
+    }
+    fn as_slice(&self) -> &[u8] {
+        &self.g.as_slice()[self.off..self.off + self.len]
+    }
+    fn as_mut_slice(&mut self) -> &mut [u8] {
+        let (o, l) = (self.off, self.len);
+        &mut self.g.as_mut_slice()[o..o + l]
+    }
+    fn intact(&self) -> bool {
+        let all = self.g.as_slice();
+        self.g.canary_intact() && all[..self.off].iter().all(|b| *b == SLACK) && all[self.off + self.len..].iter().all(|b| *b == SLACK)
+    }
 }
 
 fn place(start: bool) -> Place {
@@ -35,11 +80,12 @@ fn words(b: &[u32; 8]) -> Vec<u8> {
 fn guarded_kernel(c: &GCase, k: &dyn Kernel) -> Result<(), String> {
     let pin = place(c.in_start_flush);
     let pout = place(c.out_start_flush);
+    let mis = (c.mis % 16) as usize;
     match &c.k {
         KCase::Compress { cv, block_kind, block_seed, block_len, counter, flags, .. } => {
             let block = block_bytes(*block_kind, *block_seed);
             let want16 = b3spec::compress(cv, &b3spec::words_from_bytes_64(&block), *counter, *block_len as u32, *flags as u32);
-            let gblock = GuardBuf::with_bytes(&block, pin);
+            let gblock = MBuf::with_bytes(&block, pin, mis);
             let blk: &[u8; 64] = unsafe { &*(gblock.ptr() as *const [u8; 64]) };
             // in place: cv is both input and output
             let mut gcv = GuardBuf::with_bytes(&words(cv), pout);
@@ -53,7 +99,14 @@ fn guarded_kernel(c: &GCase, k: &dyn Kernel) -> Result<(), String> {
             if let Some(x) = k.compress_xof(cvin, blk, *block_len, *counter, *flags) {
                 eq_bytes(&format!("{}: compress_xof under guard placement", k.name()), &x, &b3spec::bytes_from_words_16(&want16))?;
             }
-            ensure!(gblock.canary_intact() && gblock.as_slice() == block, "{}: wrote to its input block", k.name());
+            // the same through a caller-supplied output pointer of any alignment (raw C / assembly kernels)
+            let mut gout = MBuf::new(64, pout, mis);
+            if k.compress_xof_to(cvin, blk, *block_len, *counter, *flags, gout.ptr()) {
+                eq_bytes(&format!("{}: compress_xof into a guard-placed output (misaligned by {})", k.name(), mis), gout.as_slice(), &b3spec::bytes_from_words_16(&want16))?;
+                ensure!(gout.intact(), "{}: compress_xof wrote outside its 64-byte output", k.name());
+            }
+            let _ = gout.as_mut_slice();
+            ensure!(gblock.intact() && gblock.as_slice() == block, "{}: wrote to its input block", k.name());
             Ok(())
         }
         KCase::HashMany { n, parents, key, counter, inc, flags, fs, fe, seed, .. } => {
@@ -61,10 +114,10 @@ fn guarded_kernel(c: &GCase, k: &dyn Kernel) -> Result<(), String> {
             let blocks = if *parents { 1 } else { 16 };
             let ilen = blocks * 64;
             let counter = if *inc { core::cmp::min(*counter, u64::MAX - n as u64) } else { *counter };
-            let mut bufs: Vec<GuardBuf> = Vec::with_capacity(n);
+            let mut bufs: Vec<MBuf> = Vec::with_capacity(n);
             let mut st = *seed;
             for _ in 0..n {
-                let mut g = GuardBuf::new(ilen, pin);
+                let mut g = MBuf::new(ilen, pin, mis);
                 fill_random(g.as_mut_slice(), gen::splitmix(&mut st));
                 bufs.push(g);
             }
@@ -73,7 +126,7 @@ fn guarded_kernel(c: &GCase, k: &dyn Kernel) -> Result<(), String> {
             let ptrs: &[*const u8] = unsafe { core::slice::from_raw_parts(gptrs.ptr() as *const *const u8, n) };
             let gkey = GuardBuf::with_bytes(&words(key), pin);
             let keyref: &[u32; 8] = unsafe { &*(gkey.ptr() as *const [u32; 8]) };
-            let mut gout = GuardBuf::new(n * 32, pout);
+            let mut gout = MBuf::new(n * 32, pout, mis);
             let mut want = vec![0u8; n * 32];
             for j in 0..n {
                 let mut cv = *key;
@@ -93,19 +146,19 @@ fn guarded_kernel(c: &GCase, k: &dyn Kernel) -> Result<(), String> {
             }
             k.hash_many(ptrs, blocks, keyref, counter, *inc, *flags, *fs, *fe, gout.as_mut_slice(), n * 32);
             eq_bytes(&format!("{}: hash_many({}x{} blocks) under guard placement", k.name(), n, blocks), gout.as_slice(), &want)?;
-            ensure!(gout.canary_intact(), "{}: hash_many wrote outside its {}-byte output", k.name(), n * 32);
-            ensure!(gkey.canary_intact() && gptrs.canary_intact() && bufs.iter().all(|g| g.canary_intact()), "{}: hash_many wrote next to an input buffer", k.name());
+            ensure!(gout.intact(), "{}: hash_many wrote outside its {}-byte output", k.name(), n * 32);
+            ensure!(gkey.canary_intact() && gptrs.canary_intact() && bufs.iter().all(|g| g.intact()), "{}: hash_many wrote next to an input buffer", k.name());
             Ok(())
         }
         KCase::XofMany { cv, block_seed, block_len, counter, flags, n, .. } => {
             let n = core::cmp::max(1, *n as usize);
             let counter = core::cmp::min(*counter, u64::MAX - n as u64);
             let block = block_bytes(0, *block_seed);
-            let gblock = GuardBuf::with_bytes(&block, pin);
+            let gblock = MBuf::with_bytes(&block, pin, mis);
             let blk: &[u8; 64] = unsafe { &*(gblock.ptr() as *const [u8; 64]) };
             let gcv = GuardBuf::with_bytes(&words(cv), pin);
             let cvref: &[u32; 8] = unsafe { &*(gcv.ptr() as *const [u32; 8]) };
-            let mut gout = GuardBuf::new(n * 64, pout);
+            let mut gout = MBuf::new(n * 64, pout, mis);
             if !k.xof_many(cvref, blk, *block_len, counter, *flags, gout.as_mut_slice(), n) {
                 return Ok(());
             }
@@ -115,8 +168,8 @@ fn guarded_kernel(c: &GCase, k: &dyn Kernel) -> Result<(), String> {
                 want[i * 64..i * 64 + 64].copy_from_slice(&b3spec::bytes_from_words_16(&w));
             }
             eq_bytes(&format!("{}: xof_many({} blocks) under guard placement", k.name(), n), gout.as_slice(), &want)?;
-            ensure!(gout.canary_intact(), "{}: xof_many wrote outside its {}-byte output", k.name(), n * 64);
-            ensure!(gcv.canary_intact() && gblock.canary_intact(), "{}: xof_many wrote next to an input", k.name());
+            ensure!(gout.intact(), "{}: xof_many wrote outside its {}-byte output", k.name(), n * 64);
+            ensure!(gcv.canary_intact() && gblock.intact(), "{}: xof_many wrote next to an input", k.name());
             Ok(())
         }
     }
@@ -136,7 +189,7 @@ pub fn check_kernels(c: &GCase) -> Result<(), String> {
 
 pub fn classify_kernels(c: &GCase) -> Classes {
     let inner = c05::classify(&c.k);
-    let mut cl = Classes::new(true).tag(c.in_start_flush, "inputs=start-flush").tag(!c.in_start_flush, "inputs=end-flush").tag(c.out_start_flush, "output=start-flush").tag(!c.out_start_flush, "output=end-flush");
+    let mut cl = Classes::new(true).tag(c.mis % 16 != 0, "buffers-misaligned").tag(c.in_start_flush, "inputs=start-flush").tag(!c.in_start_flush, "inputs=end-flush").tag(c.out_start_flush, "output=start-flush").tag(!c.out_start_flush, "output=end-flush");
     for t in inner.tags {
         if t.starts_with("kernel=") || t.starts_with("blocks=") || t == "n=0" || t == "n>=16" {
             cl.tags.push(t);
@@ -146,7 +199,8 @@ pub fn classify_kernels(c: &GCase) -> Classes {
 }
 
 fn kernels_strategy(tier: Tier) -> BoxedStrategy<GCase> {
-    (c05::strategy(tier), any::<bool>(), any::<bool>()).prop_map(|(k, a, b)| GCase { k, in_start_flush: a, out_start_flush: b }).boxed()
+    let mis = prop_oneof![3 => Just(0u8), 1 => 1u8..16, 1 => crate::gen::select(vec![1u8, 4, 8, 12, 15])];
+    (c05::strategy(tier), any::<bool>(), any::<bool>(), mis).prop_map(|(k, a, b, mis)| GCase { k, in_start_flush: a, out_start_flush: b, mis }).boxed()
 }
 
 // ---------------------------------------------------------------------------
